@@ -10,7 +10,10 @@ fd, xmlp = tempfile.mkstemp(suffix=".xml"); os.close(fd)
 env = dict(os.environ, PYTHONPATH=os.path.join(tree, "src"), PYTHONDONTWRITEBYTECODE="1")
 env.pop("URLLIB3_VERIF", None)
 cmd = ["/venv/bin/python", "-m", "pytest", "-q", "-p", "no:cacheprovider", "--timeout=120", "--continue-on-collection-errors", "--junitxml=" + xmlp] + extra
-p = subprocess.run(cmd, cwd=tree, env=env, stdout=subprocess.PIPE, stderr=subprocess.STDOUT, text=True)
+try:
+    p = subprocess.run(cmd, cwd=tree, env=env, stdout=subprocess.PIPE, stderr=subprocess.STDOUT, text=True, timeout=1800)
+except subprocess.TimeoutExpired as e:  # a hang (even after the last test) counts as not passing
+    print("pinned run did not finish within 1800 s"); print((e.stdout or "")[-400:] if isinstance(e.stdout, str) else ""); sys.exit(1)
 passed = set()
 try:
     for tc in ET.parse(xmlp).getroot().iter("testcase"):
